@@ -53,6 +53,46 @@ def structural_checks(t, is_mapping, use_check_module=True, sizes=True):
     return errs, w
 
 
+def attach_db(ls, rec, p_refuse=0.05, p_commit=0.3, p_sweep=0.3):
+    """Put the (still empty, never stored) container of a LockStep into a
+    MiniDB: it is committed and swept between calls and the data manager now
+    and then refuses a read dependency.  F22 / F34 shapes are never
+    committed.  -> the connection."""
+    from . import minidb
+    conn = minidb.Connection(minidb.Storage(), ls.impl)
+    conn.log_events = False
+    conn.add(ls.c)
+    conn.commit()
+    ls.fault_conn = conn
+    ls.p_refuse = p_refuse
+    state = {'stop': False}
+    impl = ls.impl
+
+    def hook(ls_, op, args):
+        if state['stop']:
+            return True
+        if ls_.is_tree:
+            w = ls_.walk if ls_.walk is not None else ls_.current_walk()
+            if w is None or w.inline_nonroot:
+                return True
+        r = ls_.rng.random()
+        if r < p_commit:
+            try:
+                conn.commit()
+            except Exception:
+                state['stop'] = True      # unpicklable datum: plain from here
+                return True
+            rec.ev(impl + ':stored:commit')
+            if ls_.is_tree and minidb.embedded_but_leaf_has_oid(conn, ls_.c):
+                state['stop'] = True      # F34 condition
+        elif r < p_commit + p_sweep:
+            conn.cache.minimize()
+            rec.ev(impl + ':stored:sweep')
+        return True
+    ls.hooks_after.append(hook)
+    return conn
+
+
 class LockStep:
     """Drives one container and its model through generated operations."""
 
